@@ -351,6 +351,18 @@ retry:
                 return status::OK_SCAN_END;
             }
         } else {
+            if (!right_to_left && initial_size_of_tuple_list != 0 &&
+                full_key <= std::get<0>(tuple_list.at(
+                                    initial_size_of_tuple_list - 1))) {
+                /**
+                 * The nodes scanned before this one already contributed a
+                 * key that is not smaller. This key entered the range of
+                 * this node after the scan had passed its position (the
+                 * left neighbour was emptied and unlinked, and this node
+                 * took over its range), so for this scan it does not exist.
+                 */
+                continue;
+            }
             auto in_range = [&full_key, &tuple_list, &vp, &node_version_vec,
                              &v_at_fb, &node_version_ptr, &tuple_pushed_num,
                              max_size]() {
